@@ -128,7 +128,7 @@ func (eng *Engine) dirtyBlock(b *ssa.BasicBlock, scope scopeFn, d map[string]boo
 				for k := range t {
 					if k != "@alloc" && !strings.HasPrefix(k, "ghost:") {
 						// Union/Difference/Iter only create new sets; Add writes its receiver
-						if k == setHeap && c.Method.Name() != "Add" {
+						if k == setHeap && (c.Method.Name() != "Add" || fresh(c.Value)) {
 							continue
 						}
 						d[k] = true
